@@ -272,15 +272,17 @@ class C02(Check):
     level = 'exploration'
     rule = ('Whole-API programs (timers, flags, tracked values with several comparison objects on one value, locks, queues, '
             'channels, resources with several waiting borrowers, pipes, tickers, scopes, cancellations) on a tiny time grid; '
-            'each program is executed in-process and by 12 persistent worker processes {PYTHONHASHSEED 0,1,4242} x '
-            '{USIM_WAITQUEUE unset, SD} x {python, python -O}, each with seeded heap perturbation and twice per worker; '
+            'each program is executed in-process and by 14 persistent worker processes {PYTHONHASHSEED 0,1,4242} x '
+            '{USIM_WAITQUEUE unset, SD} x {python, python -O} plus two in which the cyclic garbage collector runs before every '
+            'activation, each with seeded heap perturbation and twice per worker; also the programs of the lock/stream/resource/pipe/'
+            'ticker/first() checks, abandoned-iterator shapes and short-lived Resources of equal kinds; '
             'all event logs must be identical; plus the FIFO invariant on the activation/schedule streams. non-trivial = a time '
             'step with >=3 activations of distinct activities in a program using >=3 primitive families; distinct by sha1.')
     quick_boost = False
     budgets = {'quick': dict(examples=900, procs=2), 'thorough': dict(examples=40000, procs=4)}
     level_text = ('Differential testing across configurations: identical normalised event logs (which activity does what, at which '
-                  'time, in which order, with which values) in 13 executions per program that differ in process, hash seed, heap '
-                  'layout, wait-queue backend and assertion mode; and within each time step activations happen in the order of '
+                  'time, in which order, with which values) in 15 executions per program that differ in process, hash seed, heap '
+                  'layout, wait-queue backend, assertion mode and garbage-collector timing; and within each time step activations happen in the order of '
                   'their schedule calls.')
     level_note = ('Logs contain no addresses or reprs. The -O workers need no Hypothesis. Programs violate no usage assertion '
                   '(valid API calls only), so -O may not change behaviour.')
